@@ -26,7 +26,7 @@ pub fn build_source(case: &Value) -> (Vec<u8>, String) {
     let o = d.obj(2, 0, b"<< /Type /Pages /Kids [3 0 R] /Count 1 >>");
     e.push((2, XEntry::InUse { off: o, gen: 0 }));
     let roots: Vec<String> = ids(&case["roots"]).iter().map(|r| format!("{} 0 R", 10 + r)).collect();
-    let o = d.obj(3, 0, format!("<< /Type /Page /Parent 2 0 R /MediaBox [0 0 321 123] /Rotate 90 /Contents 4 0 R /Resources 5 0 R /Roots [{}] /Note (kept) >>", roots.join(" ")).as_bytes());
+    let o = d.obj(3, 0, format!("<< /Type /Page /Parent 2 0 R /MediaBox [5 9 321 123] /Rotate 90 /Contents 4 0 R /Resources 5 0 R /Roots [{}] /Note (kept) >>", roots.join(" ")).as_bytes());
     e.push((3, XEntry::InUse { off: o, gen: 0 }));
     let mut content = String::new();
     if used.iter().any(|u| u == "gs") { content += "/GS1 gs "; }
@@ -152,8 +152,8 @@ pub fn run(cases_path: &str, report_path: &str, _opts: &[String]) {
                 // equality of the page
                 match guarded(|| f.get_page(0)) {
                     Outcome::Done(Ok(page)) => {
-                        let mb = page.media_box().map(|m| (m.right, m.top)).ok();
-                        if mb != Some((321.0, 123.0)) || page.rotate != 90 || page.other.get("Note").is_none() {
+                        let mb = page.media_box().map(|m| (m.left, m.bottom, m.right, m.top)).ok();
+                        if mb != Some((5.0, 9.0, 321.0, 123.0)) || page.rotate != 90 || page.other.get("Note").is_none() {
                             fail(&mut rep, "page-attrs".into(), json!({"media": format!("{:?}", mb), "rotate": page.rotate}));
                         }
                         let want_ops = pdf::content::parse_ops(content.as_bytes(), &pdf::object::NoResolve).map(|o| o.iter().map(|x| format!("{:?}", x)).collect::<Vec<_>>()).unwrap_or_default();
